@@ -348,6 +348,13 @@ func VerifC08Chunked(size int, nPuts int, faults int) {
 		vfCurLo, vfCurHi = start, end
 		perr := ck.Put(chunk, Digest{sum: vfSum(vfWant[start : end+1])}, &vfBytes{b: data})
 		vfCurLo, vfCurHi = -1, -1
+		// what the 'v1 pull chunksum' markers of Registry.Pull rely on: a chunk that was stored successfully
+		// stays stored, whatever happens to Puts of other ranges
+		for i := range covered {
+			if covered[i] && (i < start || i > end) {
+				verifAssert(vfDisk.exists && vfDisk.size > i && vfDisk.data[i] == vfWant[i], "successfully-stored-chunk-stays-in-the-file")
+			}
+		}
 		if perr == nil {
 			for i := start; i <= end; i++ {
 				covered[i] = true
